@@ -84,6 +84,13 @@ structure Cfg where
   fragDen : Nat := 5
   deadBytes : Nat := 134217728
   smallFile : Nat := 10485760
+  /-- merge policy: `never`, or `always` (a `window` that contains the current hour behaves as
+      `always`, one that does not as `never`; the clock is outside the model) -/
+  policyAlways : Bool := false
+  /-- merge triggers; fragmentation as the rational `trigFragNum / trigFragDen` -/
+  trigFragNum : Nat := 3
+  trigFragDen : Nat := 5
+  trigDeadBytes : Nat := 536870912
 deriving Repr
 
 /-- the directory: data files and hint files -/
@@ -216,6 +223,11 @@ def selectFiles (cfg : Cfg) (s : St) : List Nat :=
     st.deadBytes > cfg.deadBytes || fragGt st cfg.fragNum cfg.fragDen ||
       fileSize (dataOf s.disk fid) + (AL.get fid s.disk.tails).getD 0 < cfg.smallFile).map (·.1)
   ids.mergeSort (· ≤ ·)
+
+/-- `Context::can_merge`: does the background task start a merge now? -/
+def canMerge (cfg : Cfg) (s : St) : Bool :=
+  cfg.policyAlways &&
+    s.stats.any fun (_, st) => st.deadBytes > cfg.trigDeadBytes || fragGt st cfg.trigFragNum cfg.trigFragDen
 
 structure MergeSt where
   s : St
